@@ -306,6 +306,18 @@ func (t *Table) LeftOptionalJoin(t2 *Table) error {
 		return nil
 	}
 	if disjointBindings(t.mbs, t2.mbs) {
+		if len(t2.Data) == 0 {
+			// Nothing matched the optional side. A cross product would drop all
+			// the rows; keep them and leave the new bindings as <NULL>.
+			t.mu.Lock()
+			defer t.mu.Unlock()
+			ubs := unionBindings(t.mbs, t2.mbs)
+			for i, r := range t.Data {
+				t.Data[i] = extendRow(r, ubs)
+			}
+			t.unsafeAddBindings(t2.AvailableBindings)
+			return nil
+		}
 		// The tables has nothing in commnon. Hence, we are going to treat it
 		// as a regular cross product.
 		return t.DotProduct(t2)
